@@ -35,7 +35,7 @@ def run(chk, replay=None):
     d = vlib.scratch("c02-")
     try:
         # ---- NTLMv1: enumerated cases (parity expansion exhaustive per 7-bit group)
-        vlib.replay_cases(chk, "C02Cases", vlib.cfg("C02_cases_%s.cfg" % tier, SEED=seed), "c02.cases", "ntlmv1_cases_replay")
+        vlib.replay_cases(chk, "C02Cases", vlib.cfg("C02_cases_%s.cfg" % tier, SEED=seed), "c02.cases", "ntlmv1_cases_replay", opts={"revpass": 1})
         chk.cov["exhaustive"] = True
         # ---- NTLMv2: recorded calls judged by the specification
         trace, res = os.path.join(d, "trace.ndjson"), os.path.join(d, "rec.res")
